@@ -574,7 +574,8 @@ def case_potential(p: dict) -> dict:
         V = float(np.asarray(pot.potentialOneLoopThermal(bos, fer, T)))
         # the spectrum handed over is the caller's: it must come back untouched, and the SAME tuples give the same value again
         # (on this object, at this and at another temperature after which it is asked once more, and through the zero-temperature part)
-        r.true("spectrum-arguments-untouched", all(np.array_equal(a, b) for a, b in zip(bos + fer, keep)))
+        if not r.true("spectrum-arguments-untouched", all(np.array_equal(a, b) for a, b in zip(bos + fer, keep))):
+            return r.result()  # nothing sensible can be asked of corrupted inputs (and quadratures on them may crawl)
         V2 = float(np.asarray(pot.potentialOneLoopThermal(bos, fer, T)))
         r.close("same-spectrum-again", V2, V, 0.0)
         pot.potentialOneLoopThermal(bos, fer, 1.7 * T)
